@@ -349,10 +349,14 @@ def cover_fallback(chk: Check, repo: Repo) -> None:
     ORD = {"lt": (0, 1), "eq": (1, 1), "gt": (1, 0)}
 
     def decide(e: ast.AST, cell: tuple) -> bool | None:
-        kind, sub = cell
+        kind, sub = cell[0], cell[1]
         t = ast.unparse(e)
         if t == "self.position_target.writable":
             return False
+        if t == "self.is_traveling()":
+            return len(cell) > 2 and cell[2] == "traveling"
+        if t == "self.supports_stop":
+            return True
         if isinstance(e, ast.Compare) and len(e.ops) == 1:
             l, r, op = ast.unparse(e.left), ast.unparse(e.comparators[0]), e.ops[0]
             if {l, r} == {CUR, "None"} and isinstance(op, (ast.Is, ast.IsNot, ast.Eq, ast.NotEq)):
@@ -388,18 +392,24 @@ def cover_fallback(chk: Check, repo: Repo) -> None:
                         acts.append("TRAVEL_TO_REQUESTED" if tp is not None and ast.unparse(cfg.symbolic(node.id, tp)) == param else "TRAVEL_TO_OTHER")
                     elif n == "self.position_target.set":
                         acts.append("POSITION_TELEGRAM")
+                    elif n == "self.stop":
+                        acts.append("STOP")
+                    elif n == "self._start_auto_stopper":
+                        acts.append("AUTO_STOP")
             if acts:
                 e2 = dict(env); e2["acts"] = env["acts"] + tuple(acts)
                 return [(lab, e2) for lab in sorted({l for _, l in node.succ if l != "exc"})]
         return None
     reference = {
-        ("known", "lt"): ("UP", "TRAVEL_TO_REQUESTED"), ("known", "eq"): (), ("known", "gt"): ("DOWN", "TRAVEL_TO_REQUESTED"),
+        ("known", "lt"): ("UP", "TRAVEL_TO_REQUESTED", "AUTO_STOP"), ("known", "gt"): ("DOWN", "TRAVEL_TO_REQUESTED", "AUTO_STOP"),
+        # at the requested position: nothing to send for a resting cover; a traveling one is only passing by and is stopped
+        ("known", "eq", "resting"): (), ("known", "eq", "traveling"): ("STOP",),
         ("unknown", "open"): ("UP", "TRAVEL_TO_REQUESTED"), ("unknown", "closed"): ("DOWN", "TRAVEL_TO_REQUESTED"), ("unknown", "other"): (),
     }
     for cell, ref in reference.items():
         paths = Explorer(cfg, repo, step=step).run(cfg.entry, [], {"cell": cell, "acts": ()})
         got = sorted({p.env["acts"] for p in paths if p.end == cfg.exit})
-        chk.ob("cover-fallback-direction", f.site(), got == [ref], f"no position address, current position {cell[0]}, requested {cell[1]}: {got}; reference {ref} (0 = open = up; already in position sends nothing)", key=f"coverfb|{cell[0]}|{cell[1]}")
+        chk.ob("cover-fallback-direction", f.site(), got == [ref], f"no position address (stop supported), current position {cell[0]}, requested {' '.join(cell[1:])}: {got}; reference {ref} (0 = open = up)", key="coverfb|" + "|".join(cell))
 
 
 
